@@ -66,6 +66,8 @@ func (service *importCache) getOrAdd(key string, add func() (rel.Expr, error)) (
 			// someone else can have a go.
 			service.mutex.Lock()
 			delete(service.cache, key)
+			// Wake the goroutines waiting for this key, otherwise they sleep forever.
+			service.cond.Broadcast()
 		}
 		service.mutex.Unlock()
 	}()
